@@ -334,6 +334,7 @@ func runC15(r *Report) {
 	ruleMetadata(r)
 	ruleWriterErrflow(r)
 	ruleFlushErrflow(r)
+	ruleCreateTruncates(r)
 }
 
 // R-truncate-on-close (shared with C04)
@@ -369,7 +370,7 @@ func ruleTruncateOnClose(r *Report) {
 				guards = append(guards, e)
 			}
 		}
-		o.OnlyAfterSuccess(rule, rule+"/recordio.FileWriter.Close/close-after-truncate", fn, "Truncate", T, "file.Close", C, guards)
+		o.OnlyAfterSuccess(rule, rule+"/recordio.FileWriter.Close/close-after-truncate", fn, "Truncate", T, "file.Close", onSuccessPath(fn, C), guards)
 		// the guard itself: Truncate runs exactly when largest > current
 		key := rule + "/recordio.FileWriter.Close/truncate-iff-lingering"
 		okGuard := false
